@@ -355,6 +355,10 @@ Fixpoint unesc (s : str) : list N :=
             else if d =? 110 then 10 :: unesc r1
             else if d =? 116 then 9 :: unesc r1
             else if d =? 114 then 13 :: unesc r1
+            else if d =? 97 then 7 :: unesc r1             (* \a \b \v \f: git's quote_c_style emits them too *)
+            else if d =? 98 then 8 :: unesc r1
+            else if d =? 118 then 11 :: unesc r1
+            else if d =? 102 then 12 :: unesc r1
             else if is_digit d then
               if is_oct d then
                 match r1 with
@@ -376,14 +380,15 @@ Fixpoint unesc (s : str) : list N :=
       else enc1 c ++ unesc r
   end.
 
-(* &path[1..path.len()-1] panics for the one-character path consisting of a double quote *)
-Definition unescape_git_path (path : str) : outcome str :=
-  if first_is c_dq path && last_is c_dq path then
-    match path with
-    | [_] => Panic
-    | _ => Ok (dec (unesc (removelast (tl path))))
-    end
-  else Ok path.
+(* a path shorter than two bytes is returned as is (path.len() < 2), so the slice
+   &path[1..path.len()-1] is always in range *)
+Definition unescape_git_path (path : str) : str :=
+  match path with
+  | [] | [_] => path
+  | _ => if first_is c_dq path && last_is c_dq path
+         then dec (unesc (removelast (tl path)))
+         else path
+  end.
 
 Definition diff_prefixes : list str := [[97;47]; [98;47]; [99;47]; [119;47]; [105;47]; [111;47]].
 
@@ -393,22 +398,20 @@ Fixpoint strip_first_prefix (ps : list str) (s : str) : str :=
   | p :: ps' => match strip_prefix p s with Some t => t | None => strip_first_prefix ps' s end
   end.
 
-Definition normalize_diff_path_token (path : str) : outcome str :=
-  match unescape_git_path (trim_end path) with
-  | Panic => Panic
-  | Ok u => Ok (strip_first_prefix diff_prefixes u)
-  end.
+(* str::strip_suffix('\t').unwrap_or(path): git ends a header path that contains a space with
+   one TAB; everything before it, trailing blanks included, belongs to the name *)
+Definition strip_tab (s : str) : str := if last_is c_tab s then removelast s else s.
 
-(* None = not a +++ line; Some (Ok None) = /dev/null *)
-Definition plus_header (line : str) : option (outcome (option str)) :=
+Definition normalize_diff_path_token (path : str) : str :=
+  strip_first_prefix diff_prefixes (unescape_git_path (strip_tab path)).
+
+(* None = not a +++ line; Some None = /dev/null *)
+Definition plus_header (line : str) : option (option str) :=
   match strip_prefix s_plus3 line with
   | None => None
   | Some raw =>
-      if str_eqb (trim_end raw) s_devnull then Some (Ok None)
-      else match normalize_diff_path_token raw with
-           | Panic => Some Panic
-           | Ok p => Some (Ok (Some p))
-           end
+      if str_eqb (trim_end raw) s_devnull then Some None
+      else Some (Some (normalize_diff_path_token raw))
   end.
 
 (* ------------------------------------------------------------------ the scanners *)
@@ -422,28 +425,37 @@ Fixpoint upd (k : str) (v : list N) (m : amap) : amap :=
   | (k', v') :: m' => if str_eqb k k' then (k', v' ++ v) :: m' else (k', v') :: upd k v m'
   end.
 
-Record sstate := mkS { st_cur : option str; st_all : amap; st_ins : amap }.
+(* st_pend: added lines of the current hunk that are still to come (pending_added); their text is
+   file content and is not looked at, even if it reads like a header *)
+Record sstate := mkS { st_cur : option str; st_all : amap; st_ins : amap; st_pend : nat }.
 
 Definition s_atat_sp : str := [64;64;32].
 
-Definition step (st : sstate) (line : str) : outcome sstate :=
+Definition step_main (st : sstate) (line : str) : outcome sstate :=
   match plus_header line with
-  | Some Panic => Panic
-  | Some (Ok po) => Ok (mkS po (st_all st) (st_ins st))
+  | Some po => Ok (mkS po (st_all st) (st_ins st) (st_pend st))
   | None =>
       if starts_with s_atat_sp line then
-        match st_cur st with
-        | None => Ok st
-        | Some file =>
-            match parse_hunk_header line with
-            | Panic => Panic
-            | Ok None => Ok st
-            | Ok (Some (ls, pure)) =>
+        match parse_hunk_header line with
+        | Panic => Panic
+        | Ok None => Ok st
+        | Ok (Some (ls, pure)) =>
+            match st_cur st with
+            | None => Ok (mkS None (st_all st) (st_ins st) (length ls))
+            | Some file =>
                 Ok (mkS (st_cur st) (upd file ls (st_all st))
-                        (if pure then upd file ls (st_ins st) else st_ins st))
+                        (if pure then upd file ls (st_ins st) else st_ins st) (length ls))
             end
         end
       else Ok st
+  end.
+
+Definition step (st : sstate) (line : str) : outcome sstate :=
+  match st_pend st with
+  | S n => if first_is c_plus line
+           then Ok (mkS (st_cur st) (st_all st) (st_ins st) n)
+           else step_main st line
+  | O => step_main st line
   end.
 
 Fixpoint scan_lines (st : sstate) (ls : list str) : outcome sstate :=
@@ -486,7 +498,7 @@ Definition canon (m : amap) : amap :=
   sort_keys (map (fun e => (fst e, sort_dedup (snd e))) m).
 
 Definition scan (text : str) : outcome (amap * amap) :=
-  match scan_lines (mkS None [] []) (lines text) with
+  match scan_lines (mkS None [] [] 0) (lines text) with
   | Panic => Panic
   | Ok st => Ok (canon (st_all st), canon (st_ins st))
   end.
@@ -555,22 +567,11 @@ Fixpoint nodup_str (l : list str) : bool :=
 Definition wf_doc (d : list file_diff) : bool :=
   forallb file_wf d && nodup_str (map key (filter live d)).
 
-(* --- the classes on which the scanners go wrong (core.quotePath = true) --- *)
-Definition s_pp_sp : str := [43;43;32].
-(* K1: an added line whose text begins with ++ and a space is printed as a +++ line *)
-Definition k1_file (f : file_diff) : bool :=
-  existsb (fun h => existsb (starts_with s_pp_sp) (h_new h)) (fd_hunks f).
-(* K2: a path that needs no quoting and ends in a space: trim_end eats the space *)
-Definition k2_path (p : list N) : bool := negb (needs_quote true p) && last_is c_sp p.
-(* K3: BEL, BS, VT, FF are printed as letter escapes that unescape_git_path does not know *)
-Definition is_abfv (b : N) : bool := (b =? 7) || (b =? 8) || (b =? 11) || (b =? 12).
-Definition k3_path (p : list N) : bool := existsb is_abfv p.
-
-Definition Known_C01_fmt (d : list file_diff) : bool :=
-  existsb k1_file d
-  || existsb (fun f => live f && (k2_path (fd_path f) || k3_path (fd_path f))) d.
-
-Definition path_ok (p : list N) : bool := forallb is_byte p && negb (k3_path p).
+(* The classes on which the scanners used to go wrong (an added line beginning with ++ and a space;
+   an unquoted path ending in a space; a path containing BEL, BS, VT or FF) are repaired in the
+   code this model describes: there is no exception class any more.  The former witnesses are
+   kept below as regression witnesses. *)
+Definition path_ok (p : list N) : bool := forallb is_byte p.
 
 Definition ascii (c : N) : bool := c <? 128.
 Definition ascii_paths (d : list file_diff) : bool :=
@@ -597,7 +598,9 @@ Definition wit_panic : list file_diff := [mk_f p_f [mk_h 0 [] 1 [[43;43;32;34]]]
 (* a document inside the theorem: quoted path (space, double quote, backslash, e-acute as two bytes),
    path with a space only (TAB after the label), a path beginning with a/, a deleted file, a new file
    without final newline, a file section without hunks, a deletion-only hunk, body lines that look
-   like diff syntax, a CRLF line, a function-context text containing @@ *)
+   like diff syntax (including added lines beginning with ++ and a space in the middle of a file),
+   a CRLF line, a function-context text containing @@, a path ending in two blanks, a path with BEL
+   and FF *)
 Definition wit_ok : list file_diff :=
   [ mk_f [97;32;34;92;195;169] [mk_h 3 [[45;45;32;121]] 3 [[64;64;32;45;49;32;43;49;32;64;64]; [43;32;120]];
                                 mkHunk 9 [[111]] true 10 [[92;32;78;111]; [99;13]] true [102;110;32;64;64;32;120]];
@@ -605,5 +608,8 @@ Definition wit_ok : list file_diff :=
     mk_f [97;47;98] [mk_h 0 [] 1 [[43;43]; [43;43;43]]];
     mkFile [100] false true [49;48;48;54;52;52] [49;97] [48;48] [mk_h 1 [[122]] 0 []];
     mkFile [110] true false [49;48;48;54;52;52] [48;48] [49;97] [mkHunk 0 [] false 1 [[110;101;119]] true []];
-    mk_f [101] [] ].
-
+    mk_f [101] [];
+    mk_f [107;49] [mk_h 1 [] 2 [t_weird; [43;43;32;34]; [43;43;32;47;100;101;118;47;110;117;108;108]];
+                   mk_h 7 [[111]] 11 [t_later]];
+    mk_f [116;32;32] [mk_h 0 [] 1 [t_later]];
+    mk_f [7;12] [mk_h 0 [] 1 [t_later]] ].
